@@ -57,7 +57,7 @@ var c03formSeeds = []string{
 	`type I interface { M() int }`, `m := map[string]int{"a": 1}; v, ok := m["a"]; delete(m, "a"); v; ok`, `s := "héllo"; s[1:2]; len(s)`, `x := make([]int, 2); x = append(x, 1); x[0:1]`,
 	`f := func(a int) int { return a }; f(1)`, `import "fmt"; fmt.Println(1)`, `import ( "math"; s "strings" ); math.Sqrt(4); s.Repeat("a", 2)`, `var f func() int; f()`, `panic("x")`,
 	`x := 1 << 3 | 2 &^ 1`, `!true || false && 1 < 2`, `type M []float64; m := M{1}; m[0]`, `type E struct{}; var e *E; e == nil`, `x := 'a'; y := "a" + "b"; z := 1.5e3; x; y; z`,
-	`func f() { f() }; f()`, `func f() int { x := []int{1, 2}; x[1] = 5; m := map[int]int{1: 2}; m[1] = 3; return x[0] + m[1] }; f()`, `type T struct { n int }; func f() int { t := &T{n: 1}; t.n = 2; t.n++; return t.n }; f()`, "import (\nx \"a\"\n)", `import "fmt"; import f "fmt"; f.Println(1)`, `import x "\400"`, `for { }`, `x := []int{}; x[0]`, `var m map[string]int; m["a"] = 1`, `1 / 0`, `$`, `$ 1`,
+	`func f() { f() }; f()`, `m := map[string]any{}; m["self"] = m; println(m)`, `s := []any{nil}; s[0] = s; println(s); m := map[int]any{1: s}; s[0] = m; println(m)`, `type N struct { p any }; n := &N{}; n.p = n; println(n); l := []any{n}; n.p = l; println(l)`, `func f() int { x := []int{1, 2}; x[1] = 5; m := map[int]int{1: 2}; m[1] = 3; return x[0] + m[1] }; f()`, `type T struct { n int }; func f() int { t := &T{n: 1}; t.n = 2; t.n++; return t.n }; f()`, "import (\nx \"a\"\n)", `import "fmt"; import f "fmt"; f.Println(1)`, `import x "\400"`, `for { }`, `x := []int{}; x[0]`, `var m map[string]int; m["a"] = 1`, `1 / 0`, `$`, `$ 1`,
 }
 
 type c03case struct {
